@@ -98,6 +98,13 @@ fn opener_loop(dir: &Path, sh: &Shared, loops: u64, seed: u64, who: &str) -> Vec
 					// the administration entry points open the database too: with this handle alive
 					// every one of them must be refused with the lock error and change nothing
 					let mut o = cfg().options(dir);
+					if r.chance(1, 2) {
+						// options that already carry the database's salt (a caller that read the
+						// metadata first)
+						if let Ok(Some(m)) = parity_db::Options::load_metadata(dir) {
+							o.salt = Some(m.salt);
+						}
+					}
 					let (what, res): (&str, parity_db::Result<()>) = match r.below(5) {
 						0 => ("clear_column", parity_db::clear_column(dir, r.below(3) as u8)),
 						1 => ("reset_column", Db::reset_column(&mut o, r.below(3) as u8, None)),
@@ -249,6 +256,9 @@ fn case(ctx: &Ctx, rep: &mut Report, case_seed: u64, variant: u64, replay_pendin
 		creation_race(ctx, rep, &work.path, &mut rng, &mut msgs);
 		if msgs.is_empty() {
 			spinning_retries(ctx, rep, &work.path, &mut rng, &mut msgs);
+		}
+		if msgs.is_empty() {
+			lock_file_missing(ctx, rep, &work.path, &mut rng, &mut msgs);
 		}
 		if !msgs.is_empty() {
 			report_c18(rep, &msgs, desc, case_seed, variant);
@@ -679,4 +689,63 @@ fn spinning_retries(ctx: &Ctx, rep: &mut Report, work: &Path, rng: &mut Rng, msg
 	rep.count("spinning_takeovers", takeovers.load(Ordering::Relaxed));
 	rep.evaluations += attempts.load(Ordering::Relaxed);
 	msgs.extend(viol.lock().unwrap().drain(..));
+}
+
+/// A database directory whose `lock` file is not there (restored from a backup that skipped it):
+/// whichever way the first handle is opened, every other attempt is refused while it lives.
+fn lock_file_missing(ctx: &Ctx, rep: &mut Report, work: &Path, rng: &mut Rng, msgs: &mut Vec<String>) {
+	let dir = work.join("nolock");
+	{
+		let mut c = cfg();
+		c.background = false;
+		let db = Db::open_or_create(&c.options(&dir)).expect("create");
+		db.commit_changes(vec![(0u8, Operation::Set(b"k".to_vec(), vec![1; 30]))]).unwrap();
+		drop(db);
+	}
+	let open_as = |mode: u64| -> parity_db::Result<Db> {
+		let mut c = cfg();
+		c.background = false;
+		let o = c.options(&dir);
+		match mode {
+			0 => Db::open_read_only(&o),
+			1 => Db::open(&o),
+			_ => Db::open_or_create(&o),
+		}
+	};
+	for first in 0..3u64 {
+		for second in 0..3u64 {
+			let _ = std::fs::remove_file(dir.join("lock"));
+			let holder = match open_as(first) {
+				Ok(d) => d,
+				Err(e) => {
+					msgs.push(format!("lock file missing: the first open (mode {}) failed with {} instead of a lock error", first, e));
+					return
+				},
+			};
+			rep.count("open_attempts", 2);
+			rep.evaluations += 1;
+			match open_as(second) {
+				Err(Error::Locked(_)) => rep.count("open_locked", 1),
+				Ok(second_handle) => {
+					msgs.push(format!(
+						"lock file missing: with a handle alive (opened {}) a second open ({}) returned Ok (other handle)",
+						["read-only", "plain", "create"][first as usize],
+						["read-only", "plain", "create"][second as usize]
+					));
+					std::mem::forget(second_handle);
+					std::mem::forget(holder);
+					return
+				},
+				Err(e) => {
+					msgs.push(format!("lock file missing: the second open failed with {} instead of a lock error", e));
+					drop(holder);
+					return
+				},
+			}
+			drop(holder);
+			ctx.progress();
+		}
+	}
+	let _ = rng.below(2);
+	rep.count("lock_file_missing_rounds", 1);
 }
